@@ -318,25 +318,29 @@ func (w *pathWalker) run(b *ssa.BasicBlock, start int, p *Path, on map[*ssa.Basi
 				}
 				return
 			}
-			tAtoms := w.c.atoms(x.Cond, true, p.Env)
-			fAtoms := w.c.atoms(x.Cond, false, p.Env)
-			for i := range tAtoms {
-				tAtoms[i].Env = p.Env // p is dead after the fork below, so this environment is frozen
-			}
-			for i := range fAtoms {
-				fAtoms[i].Env = p.Env
-			}
-			if !w.contradicts(p.Atoms, tAtoms) {
-				q := p.fork()
-				q.Atoms = append(q.Atoms, tAtoms...)
-				q.Last = tAtoms
-				w.next(b, b.Succs[0], q, on, k)
-			}
-			if !w.contradicts(p.Atoms, fAtoms) {
-				q := p.fork()
-				q.Atoms = append(q.Atoms, fAtoms...)
-				q.Last = fAtoms
-				w.next(b, b.Succs[1], q, on, k)
+			// each side in disjunctive form: one continuation per alternative (a membership test in a list
+			// of constants is one alternative per member, everything else a single conjunction)
+			for si, pol := range []bool{true, false} {
+				alts, binds := w.c.atomAltsB(x.Cond, pol, p.Env)
+				for ai, alt := range alts {
+					for i := range alt {
+						alt[i].Env = p.Env // p is dead after the forks below, so this environment is frozen
+					}
+					if !w.contradicts(p.Atoms, alt) {
+						q := p.fork()
+						q.Atoms = append(q.Atoms, alt...)
+						q.Last = alt
+						if len(binds[ai]) > 0 {
+							if q.Env.res == nil {
+								q.Env.res = map[ssa.Value]binding{}
+							}
+							for kv, vv := range binds[ai] {
+								q.Env.res[kv] = binding{vv, nil}
+							}
+						}
+						w.next(b, b.Succs[si], q, on, k)
+					}
+				}
 			}
 			return
 		}
